@@ -1,6 +1,7 @@
 import CotengraVerif.Lemmas.PathLemmas
 import CotengraVerif.Lemmas.ProcessorLemmas
 import CotengraVerif.Lemmas.PartitionLemmas
+import CotengraVerif.Lemmas.BestSoFarLemmas
 
 /-!
 # C05 — every pathfinder returns a complete, well-formed contraction of its network
@@ -489,6 +490,66 @@ theorem kahypar_edge_cases (nv parts : Nat) (onodes : List Nat) :
     (1 ≤ parts → (Partition.kahyparRoundRobin nv parts).length = nv) :=
   ⟨by simp [kahyparTooManyParts], kahyparFixOutputs_length nv onodes,
    kahyparRoundRobin_length nv parts⟩
+
+/-! ## presets and the state an optimizer keeps between calls
+
+`RandomGreedyOptimizer.ssa_path` (path_basic.py:1483-1523) keeps the best path seen so far and
+returns *it*; the docstring says the object "should not be re-used on different contractions".
+The presets 'random-greedy' / 'random-greedy-128' are therefore bound to the *function*
+`random_greedy_optimize` (cotengra/__init__.py:263-274), which builds a new optimizer per call.
+`Props/C05Facts.lean` checks, over the table regenerated from the live registry on every run, that
+every preset name is bound either to such a function or to an instance of a class that carries
+nothing from one call to the next. -/
+
+open BestSoFar in
+/-- **preset_fresh_per_call_valid.** A preset bound to a function that constructs its optimizer
+    inside the call answers *every* sequence of queries — any networks in any order, cheaper
+    first, dearer first, more tensors, fewer tensors — with the path the inner finder found for
+    the network it was asked about; so whenever the inner finder returns a valid complete SSA
+    path of the `N_k` inputs of query `k`, answer `k` is one. -/
+theorem preset_fresh_per_call_valid (qs : List (Nat × BestSoFar.Found))
+    (hv : ∀ q ∈ qs, checkSSA q.1 q.2.path = true) (k : Nat) (hk : k < qs.length) :
+    ∃ p, (BestSoFar.answers .freshPerCall (qs.map (·.2)))[k]? = some (some p) ∧
+      p = qs[k].2.path ∧ checkSSA qs[k].1 p = true := by
+  refine ⟨qs[k].2.path, ?_, rfl, hv _ (List.getElem_mem hk)⟩
+  rw [answers_fresh]
+  simp [List.getElem?_map, List.getElem?_eq_getElem hk]
+
+open BestSoFar in
+/-- **preset_shared_instance_counterexample.** One shared `RandomGreedyOptimizer` behind a preset
+    fails the property: after a cheaper 3-tensor network the dearer 4-tensor network is answered
+    with the 3-tensor path (a tensor is left over); after a cheaper 4-tensor network the dearer
+    3-tensor network is answered with a path naming ids that do not exist (`KeyError` in
+    `from_path`, a missing position in the linear path). Both inner answers were valid. -/
+theorem preset_shared_instance_counterexample :
+    let more : List (Nat × BestSoFar.Found) :=
+      [(3, ⟨[[0, 1], [2, 3]], 5⟩), (4, ⟨[[0, 1], [2, 3], [4, 5]], 9⟩)]
+    let fewer : List (Nat × BestSoFar.Found) :=
+      [(4, ⟨[[0, 1], [2, 3], [4, 5]], 5⟩), (3, ⟨[[0, 1], [2, 3]], 9⟩)]
+    (∀ q ∈ more ++ fewer, checkSSA q.1 q.2.path = true) ∧
+    (BestSoFar.answers .sharedInstance (more.map (·.2)))[1]? = some (some [[0, 1], [2, 3]]) ∧
+    checkSSA 4 [[0, 1], [2, 3]] = false ∧ checkSSAPartial 4 [[0, 1], [2, 3]] = true ∧
+    (BestSoFar.answers .sharedInstance (fewer.map (·.2)))[1]? = some (some [[0, 1], [2, 3], [4, 5]]) ∧
+    checkSSAPartial 3 [[0, 1], [2, 3], [4, 5]] = false := by
+  decide
+
+open BestSoFar in
+/-- **shared_instance_same_network_valid.** What a shared instance *is* good for (the documented
+    use): as long as every query is about networks of the same `N` tensors and the inner finder
+    returns valid complete paths, every answer is a valid complete path of `N` tensors. -/
+theorem shared_instance_same_network_valid (N : Nat) (qs : List BestSoFar.Found)
+    (hv : ∀ q ∈ qs, checkSSA N q.path = true) :
+    ∀ a ∈ BestSoFar.answers .sharedInstance qs, ∃ p, a = some p ∧ checkSSA N p = true :=
+  sharedAnswers_same_network N qs init (good_init N) hv
+
+open BestSoFar in
+/-- **shared_instance_decreasing_valid.** … and for sequences of strictly decreasing cost, where
+    each answer is the path found for the query itself (why a single call, or cheaper and cheaper
+    networks, never show the defect). -/
+theorem shared_instance_decreasing_valid (qs : List BestSoFar.Found)
+    (hd : qs.Pairwise (fun a b => b.flops < a.flops)) :
+    BestSoFar.answers .sharedInstance qs = qs.map fun q => some q.path :=
+  sharedAnswers_decreasing qs init (fun _ _ => rfl) hd
 
 /-! ## non-vacuity -/
 
